@@ -7,7 +7,8 @@ RULE = ('functions by truth table (<=4 variables) x every pair of source/target 
         'variables: all 36; 4 variables sampled) x targets with extra variables and '
         'pre-existing nodes x several roots sharing the target; non-trivial = non-constant')
 EXHAUSTIVE = {'quick': False, 'thorough': False}
-ASSUMES = ['every variable of the support is declared in the target']
+ASSUMES = ['every variable of the support is declared in the target',
+           'copy_bdds_from/_copy.copy_bdd are exercised through dd.autoref managers (the Function interface)']
 
 
 def stream(ctx, n, so, to, tts, extra, aged):
@@ -49,6 +50,70 @@ def stream(ctx, n, so, to, tts, extra, aged):
     ctx.sample(dict(stream=s.label, first_lines=s.lines[:8]))
 
 
+def fn_stream(ctx, n, so, to, tts, extra, reordering):
+    """dd._copy.copy_bdds_from through the Function interface (dd.autoref source and target):
+    one memo for several roots (shared and complemented roots, a root given twice, a constant),
+    target in use, with dynamic reordering enabled in the target or not"""
+    from .C12 import abuild, by_name
+    rng = ctx.rng
+    s = ctx.session(f'copy_bdds_from n={n} src={so} tgt={to} extra={extra} reordering={reordering}')
+    s.op('a0', 'new', {v: l for v, l in zip(range(n), so)})
+    tlev = list(to) + list(range(n, n + extra))
+    if extra:
+        rng.shuffle(tlev)
+    s.op('a1', 'new', {v: l for v, l in zip(range(n + extra), tlev)})
+    H = s.impl.handles
+    old = [abuild(s, 'a1', rng.getrandbits(1 << (n + extra)), n + extra) for _ in range(1)]
+    a0, a1 = s.impl.amgr['a0'], s.impl.amgr['a1']
+    before = {h: by_name(a1._bdd, H['a1'][h].node, n + extra) for h in old}
+    roots, exp = [], []
+    for t in tts:
+        f = abuild(s, 'a0', t, n)
+        roots.append(f)
+        exp.append(t)
+        if rng.random() < 0.5:
+            g = s.op('a0', 'fapply', 'not', f, None)
+            roots.append(g)
+            exp.append(T.neg(t, n))
+    if roots and rng.random() < 0.5:
+        roots.append(roots[0])
+        exp.append(exp[0])
+    if rng.random() < 0.3:
+        roots.append(s.op('a0', 'true'))
+        exp.append(T.full(n))
+    if reordering:
+        s.op('a1', 'configure', True)
+        s.op('a1', 'set_last_len', rng.choice([1, 2, 3]))
+    got = s.op('a1', 'copy_bdds_from', 0, roots)
+    case = lambda: dict(stream=s.label, lines=list(s.lines))  # noqa: E731
+    ctx.case(('copy_bdds_from', n, so, to, extra, reordering, tuple(exp)), any(t not in (0, T.full(n)) for t in exp))
+    ctx.count('copy_bdds_from')
+    if got is None:
+        ctx.violation('C11:rejected', f'copy_bdds_from rejected valid roots ({s.last_result()})', case)
+        return
+    for h, t in zip(got, exp):
+        g = by_name(a1._bdd, H['a1'][h].node, n + extra)
+        e = sum(((t >> (k >> extra)) & 1) << k for k in range(1 << (n + extra)))
+        if g != e:
+            ctx.violation('C11:wrong-function', f'copy_bdds_from: root {t:#x} copied as {g:#x}', case)
+            break
+    for h, t in before.items():
+        if by_name(a1._bdd, H['a1'][h].node, n + extra) != t:
+            ctx.violation('C11:target-held-changed', f'live Function {h} of the target changed', case)
+    for m in ('a0', 'a1'):
+        am = s.impl.amgr[m]
+        ext = {1: 1}
+        for u in [abs(f.node) for f in H[m].values()]:
+            ext[u] = ext.get(u, 0) + 1
+        bad = oracle.check_table(am._bdd, external=ext)
+        if bad:
+            ctx.violation('C11:target-table' if m == 'a1' else 'C11:source-table', f'{m}: {bad[:3]}', case)
+    s.op('a1', 'configure', False)
+    for h in sorted(set(got)):
+        s.op('a1', 'drop', h)
+    s.op('a1', 'gc')
+
+
 def copy_vars(ctx, n, order):
     """copy_vars reproduces names and levels (dd._copy.copy_vars: add_var by level)"""
     s = ctx.session(f'copy_vars n={n} order={order}')
@@ -78,6 +143,14 @@ def run(ctx):
         for so in gen.orders(n):
             for to in gen.orders(n):
                 stream(ctx, n, so, to, range(1 << (1 << n)), 0, False)
+    o3 = gen.orders(3)
+    for so in (o3 if not q else rng.sample(o3, 3)):
+        for to in o3:
+            fn_stream(ctx, 3, so, to, [rng.randrange(256) for _ in range(rng.randint(1, 3))],
+                      extra=rng.choice([0, 0, 1]), reordering=rng.random() < 0.4)
+    for _ in range(3 if q else 30):
+        fn_stream(ctx, 4, rng.choice(o4), rng.choice(o4), [rng.getrandbits(16) for _ in range(2)],
+                  extra=rng.choice([0, 1]), reordering=rng.random() < 0.4)
     # copy_vars with gaps is impossible (levels are a bijection): every order of <= 4
     import dd._copy as C
     for n in (1, 2, 3, 4):
